@@ -7,7 +7,9 @@ Functions under contract (real ASTs of PyMatterSim/dynamic/dynamics.py and utils
 Definitions (property statement + docs/dynamics.md), for T frames, N particles, d in {2,3}, origin n0 and end frame n1 > n0:
   raw displacement         r_i   = x_i(n1) - x_i(n0)
   (only wrapped coords)    D_i   = remove_pbc(r_i; cell of frame n0, ppp)             -- contract of C02 (pbc_spec_row)
-  (neighbour file)         D'_i  = D_i - (1/cn_i) sum_{t<cn_i} D_{nl(n0; i, 1+t)}      -- neighbour list of the ORIGIN frame
+  (neighbour file)         D'_i  = D_i - (1/cn_i) sum_{t<cn_i} D_{nl(n0; i, 1+t)}      -- neighbour list of the ORIGIN frame:
+                           nl(n0; ., .) = record n0 of the neighbour file as read_neighbors delivers it with Nmax = max_neighbors
+                           (class NbFile; established by __init__, used by relaxation / sq4 through the same spec functions)
   selection                sel_i = condition[n0, i] (all particles when no condition), N_sel = #sel
   F(n0,n1)  = (1/(d N_sel)) sum_{i in sel} sum_axis cos(q_i D'_{i,axis}),   q_i = qconst / diameter_i
   Q(n0,n1)  = (1/N_sel) #{ i in sel : |D'_i|^2 < a2_i }   ('>' for fast),   a2_i = (a diameter_i)^2
@@ -32,25 +34,43 @@ RU = "PyMatterSim.reader.reader_utils"
 FUNCS = "PyMatterSim.utils.funcs"
 
 NOT_DECIDED = [
-    "Dynamics.sq4: the content of the per-frame tables (that conditional_sq returns the structure factor of the subset it is given) is the "
-    "callee contract of conditional_sq (C13, proved there); here it is an uninterpreted table per origin, and the default wave-vector set is "
-    "an opaque array whose defining arguments (ndim, numofq = int(2 qrange / min 2pi/L) of frame 0, onlypositive=False) are checked; "
-    "origin frames whose slow (fast, selected) subset is empty are outside the precondition (conditional_sq divides by sqrt(0))",
-    "the neighbour-file branch of both __init__ (open + read_neighbors once per frame / once): not symbolically executed (no file model); "
-    "it is exercised concretely by the replays of the cage cases only (validation, not proof)",
+    "Dynamics.sq4: the table of every origin frame is now the one C13's contract of conditional_sq specifies (built from C13's spec functions "
+    "sq_q / sq_mode_sum: round8(|sum_i [mobile_i] exp(-i q_m.r_i)|^2 / N_mobile) averaged over equal round8(|q_m|)); what stays outside: the "
+    "default wave-vector set is an opaque integer array whose defining arguments (ndim, numofq = int(2 qrange / min 2pi/L) of frame 0, "
+    "onlypositive=False) are checked (its content: C04, bounded there); the group keys K_n(g) of the |q| column are the relational result "
+    "of pandas groupby (C13), and the number of distinct |q| is taken to be the same for every origin frame (constant box: otherwise pandas "
+    "aligns tables of different length, outside the statement); origin frames whose slow (fast, selected) subset is empty and an empty "
+    "wave-vector set are outside the precondition (conditional_sq divides by sqrt(0) / C13 requires nq >= 1)",
+    "the neighbour file itself: __init__ is proved against the callee contract of read_neighbors (C05, re-verified here) with the handle's "
+    "position counted in records; that record p starts at line p (1 + N) of the text (all records have N rows) is the glue between C05's "
+    "'handle advanced by 1 + nparticle lines' and the record counter, not an obligation; a file with fewer records than frames is outside "
+    "the precondition (read_neighbors raises on the empty line)",
     "int()/round() of floating quotients and the floating-point accuracy of the averages (A1: floats are reals); comparisons |D|^2 < a2 exactly at the cutoff",
-    "the statement's N in chi4 when a per-frame selection changes its size from frame to frame (the contract fixes N = size of the "
-    "selection in the first frame, which is the statement's N whenever the size is constant)",
+    "chi4 when a per-frame selection changes its size from origin to origin: neither the statement (one N) nor docs/dynamics.md eq. (3) "
+    "(N^-1 (<W^2> - <W>^2) with the non-averaged overlap W) defines N there; the code multiplies the variance of the overlap FRACTION by the "
+    "selection size of frame 0 (len(a2_cuts) after the loops: the last executed pair has origin 0) for every row, and the contract pins "
+    "exactly that; for a selection of constant size this is the statement's formula and, by the lemma chi4:N(<Q^2>-<Q>^2)=(1/N)(<W^2>-<W>^2), "
+    "the documented one",
     "degenerate inputs outside the statement: a particle with an empty neighbour row (cn = 0), an origin frame with an empty selection, "
     "a frame pair without any motion (alpha2 = 0/0) — excluded by preconditions, the real code returns NaN there",
-    "cal_type x coordinates x cage x condition: all 8 slow combinations and 2 fast ones (fast/xu/nocage/all, fast/x-only/cage/condition) per "
-    "dimension are proved; the other 6 fast combinations are not enumerated (the slow/fast branch is independent of the other three)",
 ]
 TRUSTED = [
     "callee contract of remove_pbc at its call sites: the result row is a function of (input row, cell of the ORIGIN frame, mask) — left "
     "uninterpreted in the relaxation units (so everything proved holds for C02.pbc_spec_row, which C02 proves for the real remove_pbc); "
     "preconditions det != 0 and ppp in {0,1}^d are obligations at the call site",
     "callee contract of cage_relative at its call sites = the spec cage_row that the unit cage_relative proves for the real body",
+    "callee contract of read_neighbors in the two __init__ units (summ_read_neighbors = the clauses C05 proves for the real body on a "
+    "neighbour-list file: coordination-number-column = min(cn, Nmax), values-shifted-by-id-origin, zero-padding, width = 1 + max row count, "
+    "int dtype, handle advanced by one record); open() returns an opaque handle at record 0, close() marks it closed (pyvc/text.py)",
+    "NL / NLwidth are defined symbols (definitional extension): NL(p,i,c) := what read_neighbors delivers for record p of the file, "
+    "NLwidth(p) := 1 + row maximum; __init__ is proved to store NL(n,.,.) as neighborlists[n], the relaxation / sq4 units read "
+    "self.neighborlists through the same functions (NbFile.nl / width / nl_array / neighborlists) and use the well-formedness of the rows "
+    "(pre_nl) by instances — justified by the lemma delivered-rows-well-formed for a well-formed file (every particle lists >= 1 id, ids "
+    "in 1..N, max_neighbors >= 1)",
+    "callee contract of conditional_sq in the sq4 unit = the table C13's unit conditional_sq[bool] proves (second result: per distinct "
+    "rounded |q| the mean of round8(|sum_i A_i exp(-i q.r_i)|^2 / N_A)), written with C13's spec functions; its preconditions (boolean "
+    "vector of length N, N_A >= 1, nq >= 1, positive box lengths) are obligations at the call site; the group-key function K_n and the "
+    "common number of groups are the relational part of that contract",
     "np.cos is an uninterpreted function (only equality of arguments is used)",
     "pandas: DataFrame(2-D array, columns=names) has column j = data[:, j]; Series.map(dict).values is the element-wise lookup",
     "quantified preconditions (every cell non-singular, every neighbour row well formed: 1 <= cn <= width-1 and ids in range, every origin "
@@ -531,9 +551,39 @@ def nbfile_lemmas():
     return [("lemma:delivered-rows-well-formed(file-well-formed=>precondition-of-cage_relative)", sv.implies(hyp, F.pre_nl(p, i, t)))]
 
 
+def chi4_lemmas():
+    """chi4 in the two textual forms.  The statement writes chi4 = N (<Q^2> - <Q>^2) with Q the overlap FRACTION; docs/dynamics.md eq. (3)
+    writes chi4 = N^-1 (<Q^2> - <Q>^2) 'in which Q(t) should be the non-averaged value', i.e. the overlap COUNT W = N Q.  For a selection of
+    constant size c (W(n0) = c q(n0) for every origin) the two coincide:
+        c (<q^2> - <q>^2) = (1/c) (<W^2> - <W>^2),     <x> = (1/M) sum_{n0 < M} x(n0).
+    Proved for an uninterpreted per-origin fraction q: linearity of the origin sum by induction on the number of origins M (base, step),
+    then a rational identity.  (For a selection whose size changes from origin to origin neither text defines N; see NOT_DECIDED.)"""
+    M, c = sv.integer("M"), sv.real("c")
+    fq = z3.Function("qfrac", z3.IntSort(), z3.RealSort())
+
+    def q(n):
+        return sv.SV(fq(sv.znum(n)))
+
+    def w(n):
+        return sv.mul(c, q(n))
+    S1 = lambda m: Sum(0, m, q)                                   # noqa: E731
+    S2 = lambda m: Sum(0, m, lambda n: sv.mul(q(n), q(n)))        # noqa: E731
+    W1 = lambda m: Sum(0, m, w)                                   # noqa: E731
+    W2 = lambda m: Sum(0, m, lambda n: sv.mul(w(n), w(n)))        # noqa: E731
+    lin = lambda m: _and(sv.cmp("==", W1(m), sv.mul(c, S1(m))), sv.cmp("==", W2(m), sv.mul(sv.mul(c, c), S2(m))))   # noqa: E731
+    M1 = sv.add(M, 1)
+    a, b, n_ = sv.real("sumq2"), sv.real("sumq"), sv.real("norig")
+    stmt = sv.mul(c, sv.sub(sv.div(a, n_), sv.mul(sv.div(b, n_), sv.div(b, n_))))
+    docs = sv.div(sv.sub(sv.div(sv.mul(sv.mul(c, c), a), n_), sv.mul(sv.div(sv.mul(c, b), n_), sv.div(sv.mul(c, b), n_))), c)
+    return [("lemma:chi4:count-sums=c.fraction-sums:base(M=0)", lin(0)),
+            ("lemma:chi4:count-sums=c.fraction-sums:step(M->M+1)", sv.implies(_and(sv.cmp(">=", M, 0), lin(M)), lin(M1))),
+            ("lemma:chi4:N(<Q^2>-<Q>^2)-of-fractions=(1/N)(<W^2>-<W>^2)-of-counts(constant-selection-size)",
+             sv.implies(_and(sv.cmp("!=", c, 0), sv.cmp("!=", n_, 0)), sv.cmp("==", stmt, docs)))]
+
+
 def extra_checks(tier, seed, repo):
     from pyvc.vc import prove_lemmas
-    return {"obligations": prove_lemmas("C06", lemmas() + nbfile_lemmas()) + wrapped_equals_unwrapped()}
+    return {"obligations": prove_lemmas("C06", lemmas() + nbfile_lemmas() + chi4_lemmas()) + wrapped_equals_unwrapped()}
 
 
 # ------------------------------------------------------------------------------------------------------
@@ -549,6 +599,12 @@ def _parse(case):
 QUANT = [("isf", "F"), ("Qt", "Q"), ("msd", "M2")]
 
 
+def _relaxation_cases():
+    """the full product the property quantifies over: d x {slow, fast} x {xu, x-only} x {nocage, cage} x {all, condition}"""
+    return [f"d={d}/{mode}/{coords}/{cg}/{cd}" for d in (2, 3) for mode in ("slow", "fast") for coords in ("xu", "x-only")
+            for cg in ("nocage", "cage") for cd in ("all", "condition")]
+
+
 class DynRelaxation(Unit):
     module = MOD
     qualname = "Dynamics.relaxation"
@@ -557,15 +613,7 @@ class DynRelaxation(Unit):
     loop_opts = {"cond_acc": "scatter-first"}    # a[nn - 1] += x in the inner loop: one writer iteration per element
 
     def cases(self):
-        out = []
-        for d in (2, 3):
-            for coords in ("xu", "x-only"):
-                for cg in ("nocage", "cage"):
-                    for cd in ("all", "condition"):
-                        out.append(f"d={d}/slow/{coords}/{cg}/{cd}")
-            out.append(f"d={d}/fast/xu/nocage/all")
-            out.append(f"d={d}/fast/x-only/cage/condition")
-        return out
+        return _relaxation_cases()
 
     def setup(self, ctx, case):
         d, fast, pbc, cage, cond = _parse(case)
@@ -656,15 +704,7 @@ class LogRelaxation(Unit):
     timeout = 20
 
     def cases(self):
-        out = []
-        for d in (2, 3):
-            for coords in ("xu", "x-only"):
-                for cg in ("nocage", "cage"):
-                    for cd in ("all", "condition"):
-                        out.append(f"d={d}/slow/{coords}/{cg}/{cd}")
-            out.append(f"d={d}/fast/xu/nocage/all")
-            out.append(f"d={d}/fast/x-only/cage/condition")
-        return out
+        return _relaxation_cases()
 
     def setup(self, ctx, case):
         d, fast, pbc, cage, cond = _parse(case)
@@ -1443,7 +1483,11 @@ class DynSq4(Unit):
     """Dynamics.sq4(t, qrange, condition, outputfile): with lag = round(t / time[0]) (documented conversion of the time to a frame
     interval) the returned table is  (1 / (T - lag)) sum_{n < T - lag} S_n,  S_n = second result of
     conditional_sq(frame n of x_snapshots if given else of the dynamics trajectory, the default wave vectors of the box of frame 0,
-    condition = [particle i is slow (fast) between frames n and n + lag] * [selected in frame n])   (callee contract of C13).
+    condition = [particle i is slow (fast) between frames n and n + lag] * [selected in frame n]), and S_n is written out with the
+    spec functions of C13's contract of conditional_sq (setup: csq_spec): row g = (K_n(g), mean over the wave vectors m with
+    round8(|q_m|) = K_n(g) of round8(|sum_i [mobile_i(n)] exp(-i q_m . r_i(n))|^2 / #mobile(n))), q_m = 2 pi n_m / L(frame n),
+    r_i(n) the positions of the frame handed to conditional_sq.  So the result is literally the structure factor of the slow
+    (fast) subset averaged over the origins.
     The frame loop accumulates a DataFrame from the number 0: written invariant, init / step obligations as for every summary."""
     module = MOD
     qualname = "Dynamics.sq4"
@@ -1480,7 +1524,7 @@ class DynSq4(Unit):
         def snapshot_of(tag):
             def f(n):
                 cls = load_module(RU).get_class("SingleSnapshot")
-                attrs = {"positions": A.getitem(W.X, n) if tag == 0 else A.new_arr((N, d), lambda idx: sv.SV(z3.Function("XS", I_, I_, I_, R_)(sv.znum(n), sv.znum(idx[0]), sv.znum(idx[1]))), "float"),
+                attrs = {"positions": A.getitem(W.X, n) if tag == 0 else A.new_arr((N, d), lambda idx: sv.SV(z3.Function("XS", I_, I_, I_, R_)(sv.znum(n), sv.znum(idx[0]), sv.znum(idx[1]))), "float"),   # = XSf below
                          "nparticle": N, "timestep": sv.SV(TAG(z3.IntVal(tag), sv.znum(n))), "particle_type": A.getitem(W.ptype, n),
                          "boxlength": A.new_arr((d,), lambda idx: sv.SV(BL(z3.IntVal(tag), sv.znum(n), sv.znum(idx[0]))), "float")}
                 if pbc:
@@ -1509,8 +1553,59 @@ class DynSq4(Unit):
         ctx.assume(G >= 0)
         M = ctx.int("nvectors")
         ctx.assume(M >= 0)
-        CS = z3.Function("CSQ", I_, I_, I_, R_)              # (origin frame, row, column) at this lag
         norig = sv.sub(T, lag)
+        ctx.assume(M >= 1)                                   # precondition of conditional_sq's contract (C13: nq >= 1)
+        # ---- the table conditional_sq returns for origin frame n, in the terms of C13's contract (contracts/C13.py, unit
+        # conditional_sq[d/bool]: clauses FFT:sum, FFT:normalisation, Sq=|sum|^2/N_A, rounded-to-8-decimals, q=|q-vector|,
+        # average:mean-of-Sq-over-equal-rounded-|q|), built from C13's own spec functions sq_q and sq_mode_sum:
+        #   rho_n(m)  = sum_i [mobile_i(n)] exp(-i q_m . r_i(n)),  q_m = 2 pi n_m / L(frame n),  N_A(n) = #mobile(n)
+        #   Sq_n(m)   = round8(|rho_n(m)|^2 / N_A(n)),  |q|_n(m) = round8(|q_m|)
+        #   row g     = (K_n(g), mean of Sq_n(m) over the m with |q|_n(m) = K_n(g)),  K_n(g) = g-th distinct |q|_n (groupby contract)
+        from contracts import C13
+        QVf = z3.Function("QV", I_, I_, I_)
+        XSf = z3.Function("XS", I_, I_, I_, R_)
+        GK = z3.Function("SQ_groupkey", I_, I_, R_)
+
+        class _QV:
+            @staticmethod
+            def get(idx):
+                return sv.SV(QVf(sv.znum(idx[0]), sv.znum(idx[1])))
+
+        class _FrameAsTraj:
+            """frame n of the trajectory handed to conditional_sq, seen as the one-frame trajectory of C13's contract"""
+            def __init__(self, n):
+                self.n = n
+
+            def bl(self, s_, c):
+                return sv.SV(BL(z3.IntVal(sq_tag), sv.znum(self.n), sv.znum(c)))
+
+            def pos(self, s_, i, c):
+                if sq_tag == 0:
+                    return W.pos(self.n, i, c)
+                return sv.SV(XSf(sv.znum(self.n), sv.znum(i), sv.znum(c)))
+
+        def c13_inp(n):
+            return dict(tr=_FrameAsTraj(n), N=N, d=d, kind="bool", el=lambda i: mobile_spec(n, i), qv=_QV)
+
+        def n_mobile(n):
+            return Sum(0, N, lambda j: sv.ite(mobile_spec(n, j), 1, 0))
+
+        def sq_row(n, m):
+            """(rounded |q_m|, rounded S(q_m)) of the subset of frame n: C13's per-wave-vector table"""
+            inp_n = c13_inp(n)
+            rho = C13.sq_mode_sum(inp_n, m)
+            raw = sv.div(sv.add(sv.mul(rho.re, rho.re), sv.mul(rho.im, rho.im)), sv.to_real(n_mobile(n)))
+            qq = _sum([sv.mul(C13.sq_q(inp_n, m, c), C13.sq_q(inp_n, m, c)) for c in range(d)])
+            return sv.round_dec(sv.sqrt(qq), 8), sv.round_dec(raw, 8)
+
+        def csq_spec(n, g, ci):
+            """element (g, ci) of the |q|-averaged table (second result) of conditional_sq for origin frame n"""
+            key = sv.SV(GK(sv.znum(n), sv.znum(g)))
+            if ci == 0:
+                return key
+            num = Sum(0, M, lambda m: sv.ite(sv.cmp("==", sq_row(n, m)[0], key), lambda: sq_row(n, m)[1], 0))
+            den = Sum(0, M, lambda m: sv.ite(sv.cmp("==", sq_row(n, m)[0], key), 1, 0))
+            return sv.div(num, den)
         # ---- callee contracts
         numofq_spec = sv.trunc(sv.div(sv.mul(qrange, 2), _min([sv.div(sv.mul(2, sv.PI), sv.SV(BL(z3.IntVal(sq_tag), z3.IntVal(0), z3.IntVal(c)))) for c in range(d)])))
         QV = {}
@@ -1523,7 +1618,6 @@ class DynSq4(Unit):
             st.require(sv.cmp("==", a.get("numofq"), numofq_spec), "call:choosewavevector:numofq=int(2.qrange/min(2pi/L))-of-frame-0-of-the-S(q)-trajectory")
             op = a.get("onlypositive", False)
             st.require(op is False or (sv.is_conc(op) and not op), "call:choosewavevector:onlypositive=False")
-            QVf = z3.Function("QV", I_, I_, I_)
             arr = A.new_arr((M, d), lambda idx: sv.SV(QVf(sv.znum(idx[0]), sv.znum(idx[1]))), "int")
             QV["sid"] = arr.sid
             return arr
@@ -1562,10 +1656,13 @@ class DynSq4(Unit):
                        "call:conditional_sq:condition=slow(fast)-between-frames-n-and-n+lag(-and-selected-in-frame-n)")
             # precondition of the unit (instance at this origin): the slow (fast, selected) subset of every origin frame is not
             # empty — conditional_sq (C13) requires at least one selected particle (it divides by sqrt of their number)
-            cnt = Sum(0, N, lambda j: sv.ite(mobile_spec(n, j), 1, 0))
+            cnt = n_mobile(n)
             st.assume(sv.implies(_in(0, n, norig), sv.cmp(">=", cnt, 1)))
             st.require(sv.cmp(">=", Sum(0, N, lambda j: sv.ite(cnd.get((j,)), 1, 0)), 1), "call:conditional_sq:pre:at-least-one-selected-particle")
-            tab = frame_table(lambda g, ci: sv.SV(CS(sv.znum(n), sv.znum(g), z3.IntVal(ci))))
+            st.require(sv.cmp(">=", qv.shape[0], 1) if isinstance(qv, A.Arr) else False, "call:conditional_sq:pre:at-least-one-wave-vector")
+            for c_ in range(d):
+                st.require(sv.cmp(">", _FrameAsTraj(n).bl(0, c_), 0), "call:conditional_sq:pre:box-lengths-positive")
+            tab = frame_table(lambda g, ci: csq_spec(n, g, ci))
             return (None, tab)
         self.summaries = {"PyMatterSim.utils.pbc.remove_pbc": summ_remove_pbc(W), MOD + ".cage_relative": summ_cage_relative(W), CSQ_KEY: csq, CWV_KEY: cwv}
         ctx.interp.summaries = dict(self.summaries)
@@ -1576,7 +1673,7 @@ class DynSq4(Unit):
             var = "ave_sqresults"
 
             def inv(k):
-                return frame_table(lambda g, ci: Sum(lo, k, lambda n: sv.SV(CS(sv.znum(n), sv.znum(g), z3.IntVal(ci)))))
+                return frame_table(lambda g, ci: Sum(lo, k, lambda n: csq_spec(n, g, ci)))
 
             def run(kv, val, extra):
                 fr = Frame(frame.module, dict(frame.env), frame.fname)
@@ -1617,7 +1714,7 @@ class DynSq4(Unit):
         ln = _first_for(self.qualname, "conditional_sq")
         ctx.interp.loop_hints[(f"{MOD}.{self.qualname}", "for", ln)] = hint
         of = "s4.csv" if fil else ""
-        inp = dict(W=W, T=T, G=G, CS=CS, lag=lag, norig=norig, of=of, g=ctx.int("g"),
+        inp = dict(W=W, T=T, G=G, CS=csq_spec, lag=lag, norig=norig, of=of, g=ctx.int("g"),
                    watch=[W.X.sid, W.tm.sid, W.diam.sid, W.a2.sid, W.ppp.sid] + ([W.HM.sid] if pbc else []) + ([W.C.sid] if cond else []))
         return [self_, t, qrange, (W.C if cond else None), of], {}, inp
 
@@ -1637,7 +1734,7 @@ class DynSq4(Unit):
         inr = _in(0, g, G)
         eqs = []
         for ci, c in enumerate(SQCOLS):
-            want = sv.div(Sum(0, norig, lambda n: sv.SV(CS(sv.znum(n), sv.znum(g), z3.IntVal(ci)))), norig)
+            want = sv.div(Sum(0, norig, lambda n: CS(n, g, ci)), norig)
             eqs.append(sv.cmp("==", cols[c].get((g,)), want))
         yield "value=average-over-the-T-lag-origins-of-the-structure-factor-of-the-slow(fast)-subset", sv.implies(inr, sv.and_(*eqs))
         writes = [e for e in out.state.trace if e[0] == "to_csv"]
@@ -1759,9 +1856,9 @@ def _replay_sq4(case, clause, model, seed):
 UNITS = [DynRelaxation(), LogRelaxation(), DynInit(), LogInit(), Alpha2Factor(), CageRelative(), DynSq4()]
 # callee contracts of other properties used at call sites: their units are re-verified with this check
 from contracts.common import callee_units as _callee_units   # noqa: E402
-UNITS = UNITS + _callee_units([('C02', None)], UNITS)
+UNITS = UNITS + _callee_units([('C02', None), ('C05', {'read_neighbors'}), ('C13', {'conditional_sq'})], UNITS)
 
 MANIFEST = {
-    "text": 'Dynamics.relaxation and LogDynamics.relaxation (real ASTs, re-read every run), symbolic frame number T >= 2 and particle number N >= 1, d in {2,3}, for coordinates xu / x-only (PBC removal through remove_pbc with the cell of the origin frame, any mask with a periodic axis), with/without cage-relative neighbour lists (list of the origin frame), with/without a per-frame boolean selection, slow (8 combinations) and fast (2 combinations) per dimension: at an arbitrary row k, t = time[k]; isf, Qt, msd are the averages over ALL origins n0 = 0..T-2-k of the mean of cos(q_i D) over selected particles and axes (q_i = qconst/diameter_i), of the fraction with |D|^2 < a2_i (> for fast) and of the mean |D|^2; X4_Qt = N_sel(<Q^2>-<Q>^2); alpha2 = c_d <M4>/<M2>^2 - 1 with c_3 = 3/5, c_2 = 1/2; the log variant returns the same pair quantities with the first frame as only origin and X4_Qt = 0. The nested (end frame, lag) loops are summarised by inductively checked scatter-add summaries; two generic lemmas proved by induction on the frame number (number of origins = T-1-k; sum over end frames = sum over origins) turn the accumulated sums into the origin averages of the statement. Also under contract: alpha2factor (3/5, 1/2, ValueError otherwise), cage_relative (row i = displacement minus the mean over its cn_i listed neighbours, symbolic N and list width), both __init__ without neighbour file (xu preferred, PBC flag iff only wrapped coordinates, ValueError for unequal frame numbers / no periodic axis, time[k] = (ts[k+1]-ts[0]) dt, diameters = map of the first frame types, a2_cuts = (a diameter)^2), and the lemma wrapped = unwrapped on the contract of remove_pbc (lattice-shifted displacement within half a cell is restored, every mask, d = 2, 3). Inputs are never written.',
-    "note": 'floats as reals (A1); remove_pbc enters through its C02 contract (uninterpreted row function + call-site preconditions), cage_relative through the contract its own unit proves; np.cos uninterpreted; pandas DataFrame/Series.map contracts assumed; quantified preconditions used by instances; Dynamics.sq4 under contract with callee contracts of conditional_sq / choosewavevector (lag = round(t/time[0]), mobility condition per origin, origin average, file); NOT under contract: the neighbour-file branch of __init__ (only replayed concretely); 6 of the 8 fast combinations per dimension are not enumerated; N of chi4 is the selection size of the first frame',
+    "text": 'Dynamics.relaxation and LogDynamics.relaxation (real ASTs, re-read every run), symbolic frame number T >= 2 and particle number N >= 1, d in {2,3}, for the full product {slow, fast} x coordinates {xu, x-only} (PBC removal through remove_pbc with the cell of the origin frame, any mask with a periodic axis) x {without, with} cage-relative neighbour lists (list of the origin frame) x {all particles, per-frame boolean selection} = 16 combinations per dimension and class: at an arbitrary row k, t = time[k]; isf, Qt, msd are the averages over ALL origins n0 = 0..T-2-k of the mean of cos(q_i D) over selected particles and axes (q_i = qconst/diameter_i), of the fraction with |D|^2 < a2_i (> for fast) and of the mean |D|^2; X4_Qt = N_sel(<Q^2>-<Q>^2); alpha2 = c_d <M4>/<M2>^2 - 1 with c_3 = 3/5, c_2 = 1/2; the log variant returns the same pair quantities with the first frame as only origin and X4_Qt = 0. The nested (end frame, lag) loops are summarised by inductively checked scatter-add summaries; two generic lemmas proved by induction on the frame number (number of origins = T-1-k; sum over end frames = sum over origins) turn the accumulated sums into the origin averages of the statement. Both __init__ (xu preferred, PBC flag iff only wrapped coordinates, ValueError for unequal frame numbers / no periodic axis, time[k] = (ts[k+1]-ts[0]) dt, diameters = map of the first frame types, a2_cuts = (a diameter)^2), without and WITH a neighbour file: one handle is opened for reading, read_neighbors (callee contract of C05) is called once per frame (Dynamics: T records, neighborlists[n] = record n of the file as delivered with Nmax = max_neighbors: cn = min(listed, Nmax), zero-based ids, zero padding, width 1 + max cn; LogDynamics: record 0 only, which is the list of its only origin frame), the handle is closed; the relaxation and sq4 units take self.neighborlists from the same spec functions, and the lemma delivered-rows-well-formed derives the precondition of cage_relative from a well-formed file, so the chain file -> __init__ -> relaxation -> cage_relative is closed by contracts. alpha2factor (3/5, 1/2, ValueError otherwise), cage_relative (row i = displacement minus the mean over its cn_i listed neighbours, symbolic N and list width), the lemma wrapped = unwrapped on the contract of remove_pbc (lattice-shifted displacement within half a cell is restored, every mask, d = 2, 3), and the lemma that N(<Q^2>-<Q>^2) on overlap fractions equals the documented N^-1(<W^2>-<W>^2) on overlap counts for a selection of constant size. Dynamics.sq4: lag = round(t/time[0]), the mobility mask of every origin frame (checked at the conditional_sq call), the frame and wave vectors handed over, and the result = average over the T-lag origins of the table that C13 specifies for conditional_sq, written with C13 spec functions: per distinct rounded |q| the mean of round8(|sum_i [mobile_i] exp(-i q.r_i)|^2 / N_mobile); saved file = returned. Inputs are never written.',
+    "note": 'floats as reals (A1); remove_pbc enters through its C02 contract (uninterpreted row function + call-site preconditions), cage_relative through the contract its own unit proves, read_neighbors through the clauses C05 proves (handle position counted in records), conditional_sq through the table C13 proves (group keys relational, same number of distinct |q| for every origin frame, non-empty wave-vector set and non-empty subset required); np.cos uninterpreted; pandas DataFrame/Series.map contracts assumed; quantified preconditions used by instances; N of chi4 is the selection size of the first frame (the statement and the docs define one N only: constant selection size); the default wave-vector set is opaque here (C04)',
 }
